@@ -395,6 +395,10 @@ static int vf_arg_unput(void)
 	/* "push-back overflow" is the documented outcome when the buffer cannot hold the
 	 * pushed-back text and the current token; only tiny explicit buffers may hit it */
 	if (vf_bufsize > 0 && vf_bufsize <= 8) vf_expected_fatal = "push-back overflow";
+#ifdef VF_SOURCE_SCAN
+	/* yy_scan_string/bytes/buffer buffers are exactly as large as their contents: same capacity limit */
+	vf_expected_fatal = "push-back overflow";
+#endif
 	return (unsigned char)chars[c];
 }
 
